@@ -337,7 +337,7 @@ def scan(text, filename="", is_type=None):
     at_bol = True
     while i < n:
         c = text[i]
-        if c in " \t":
+        if c in " \t\f\v":     # C99 6.4p3 white space (directive lines allow only space and tab: see _directive)
             i += 1
             continue
         if c == "\n":
